@@ -89,15 +89,16 @@ def run(tier, seed):
         src, info = qrender.render(b)
         infos[i] = info
         # every third behaviour runs with the QASM log switched off, as the CLI does for all shots but the last
-        jobs.append({"id": i, "src": src, "draws": qrender.draws_of(b), "gc": "none", "log": (i % 3 != 2),
+        # ... and every fourth one with echo output switched off, as the CLI does for the shots of a multi-shot run
+        jobs.append({"id": i, "src": src, "draws": qrender.draws_of(b), "gc": "none", "log": (i % 3 != 2), "echo": (i % 4 != 1),
                      "want": ["events", "final", "qasm"]})
     res = runner.run_jobs(jobs)
     by_prop = collections.defaultdict(list)
     for i, b in enumerate(behs):
-        for props, msg in qrender.compare(b, infos[i], res[i], log_on=jobs[i]["log"]):
+        for props, msg in qrender.compare(b, infos[i], res[i], log_on=jobs[i]["log"], echo_on=jobs[i]["echo"]):
             for prop in props.split(","):
                 by_prop[prop].append({"behaviour": i, "what": msg, "program": jobs[i]["src"], "draws": jobs[i]["draws"],
-                                      "log": jobs[i]["log"],
+                                      "log": jobs[i]["log"], "echo": jobs[i]["echo"],
                                       "spec": {k: b[k] for k in ("prog", "halted", "echo", "trk", "ops", "n", "free", "last")}})
     if by_prop.get("INFRA"):
         raise vlib.Infra("generated program rejected by the front end: %s\n%s" % (by_prop["INFRA"][0]["what"], by_prop["INFRA"][0]["program"][-800:]))
